@@ -6,7 +6,7 @@ ENC = ["cminx.document (os.walk loop, pruning, auto-exclusion, index.rst constru
 STUBS = "stubs: os.walk/scandir/isdir/isfile/exists/makedirs/abspath (virtual tree), pathspec matcher = symbolic verdict per path, " \
         "Documenter = writer whose text is a function of (file, title, module name), write_to_file/print recorded"
 
-S1 = ("in", [], ["b.cmake", "A.CMAKE", "c.txt", "a-1.x.cmake", "a.cmake", "cmake"])      # a-1.x.cmake < a.cmake by name, > by (stem, ext); "cmake": a file that is not *.cmake
+S1 = ("in", [], ["b.cmake", "A.CMAKE", "c.txt", "a.1-x.cmake", "a.cmake", "cmake"])      # a.1-x.cmake < a.cmake by name, > by (stem, ext), and both share the text before their first dot; "cmake": a file that is not *.cmake
 S2 = ("in", [("z0", [], ["x.cmake"]), ("y1", [], ["x.cmake", "n.txt"])], ["b.cmake", "c.txt"])
 S2q = ("in", [("z0", [], ["x.cmake"]), ("y1", [], ["x.cmake", "w.cmake"])], ["b.v2.cmake"])      # a base name with an inner dot
 S2b = ("in", [("z0", [], ["n.txt"]), ("y1", [], ["M.CMake", "m.cmake"]), ("x2", [], ["q.cmake"])], ["b.cmake"])
